@@ -1805,3 +1805,20 @@ MA('C06', 'composition differentiates the left factor at the shared temporary',
    'left_deriv = self.left.derivative(self.right(x))',
    'left_deriv = self.left.derivative(self.right(x, out=self.__tmp) if self.__tmp is not None else self.right(x))',
    'tmp=')
+MA('C09', 'quadratic perturbation with a constant keeps the linear flag',
+   'odl/solvers/functional/functional.py',
+   'FunctionalQuadraticPerturb.__init__',
+   'super(FunctionalQuadraticPerturb, self).__init__(space=func.domain, linear=func.is_linear and quadratic_coeff == 0 and (self.__constant == 0), grad_lipschitz=grad_lipschitz)',
+   'super(FunctionalQuadraticPerturb, self).__init__(space=func.domain, linear=func.is_linear and quadratic_coeff == 0, grad_lipschitz=grad_lipschitz)',
+   'FunctionalQuadraticPerturb[<., v>, linear term, constant')
+MA('C09', 'separable sum declares the largest bound Python max() finds',
+   'odl/solvers/functional/default_functionals.py', 'SeparableSum.__init__',
+   'super(SeparableSum, self).__init__(space=domain, linear=linear)',
+   'super(SeparableSum, self).__init__(space=domain, linear=linear, grad_lipschitz=max(func.grad_lipschitz for func in functionals))',
+   'R3e')
+MA('C09', 'Huber gradient norm without the power-space weights',
+   'odl/solvers/functional/default_functionals.py',
+   'Huber.gradient.HuberGradient._call',
+   'norm = PointwiseNorm(self.domain, 2)(x)',
+   'norm = x[0].ufuncs.square()\nfor xi in x[1:]:\n    norm += xi.ufuncs.square()\nnorm.ufuncs.sqrt(out=norm)',
+   'Huber[pspace weights')
